@@ -25,6 +25,16 @@ CHECKS = {
                  "repetitions (unique serial per repetition), every look-up by fixed values for every subset of the unpacked parameters, and the saved results file."),
         "note": "Trusted: reference runner, fakes. No faults are injected here (C07 does). The number of _keep_going calls and all timing are unconstrained by design.",
     },
+    "C06": {
+        "engine": "simkit", "level": "exploration", "design_ref": "DESIGN.md section 4 (C06)",
+        "technique": "deterministic simulation of the accumulation schedule: seeded assignment of observations to accumulators and seeded merge trees, list-of-observations reference model checked after every operation, snapshot comparison of every non-destination object",
+        "text": ("Seeded exploration of schedules: which accumulator receives each observation and in which tree the accumulators are merged (contiguous chunks, every association order, "
+                 "updates interleaved with merges), for the four result types, accumulation on/off, exact-integer arithmetic (equality is ==) and float arithmetic (1e-9), plus "
+                 "merge_all_results/append_all_results histories (incl. into an empty set) and combine_simulation_results over overlapping grids. After EVERY operation every live object "
+                 "must equal one-by-one accumulation of the observations it represents, and every object that was not the destination must be bit-identical to its snapshot. "
+                 "No faults exist to inject for this property; this is the weakest honest use of the technique (said so in DESIGN.md)."),
+        "note": "Trusted: the list model and the snapshot function. Operations are wrapped in a 3 s per-operation timer so that a non-returning call is a verdict, not a hang.",
+    },
 }
 
 _PENDING = ["C03", "C06", "C08", "C10", "C13", "C14", "C15"]
